@@ -28,7 +28,7 @@ theorem byteAt_append_left (a b : Bytes) (i : Nat) (h : i < a.length) : byteAt (
   simp [byteAt, List.getElem?_append_left h]
 
 theorem byteAt_take (a : Bytes) (n i : Nat) (h : i < n) : byteAt (a.take n) i = byteAt a i := by
-  simp [byteAt, List.getElem?_take, h]
+  simp [byteAt, h]
 
 theorem rd_append_left (a b : Bytes) (off w : Nat) (h : off + w ≤ a.length) : rd (a ++ b) off w = rd a off w := by
   induction w generalizing off with
@@ -43,6 +43,17 @@ theorem rd_take (a : Bytes) (n off w : Nat) (h : off + w ≤ n) : rd (a.take n) 
   | succ w ih =>
     simp only [rd]
     rw [byteAt_take a n off (by omega), ih (off + 1) (by omega)]
+
+theorem rd_lt (bs : Bytes) (off w : Nat) : rd bs off w < 256 ^ w := by
+  induction w generalizing off with
+  | zero => simp [rd]
+  | succ w ih =>
+    simp only [rd]
+    have h1 := (byteAt bs off).toNat_lt
+    have h2 := ih (off + 1)
+    rw [Nat.pow_succ]
+    have : (byteAt bs off).toNat * 256 ^ w ≤ 255 * 256 ^ w := Nat.mul_le_mul_right _ (by omega)
+    omega
 
 theorem enc_len (h : Header) : (encodeHeader h).length = HeaderSize := by
   simp [encodeHeader, applyWrites, encodeWrites, length_wr, HeaderSize]
